@@ -123,7 +123,7 @@ func main() {
 
 	cases, maxOps, bigCases := 80, 50, 1
 	if r.Thorough() {
-		cases, maxOps, bigCases = 1500, 120, 12
+		cases, maxOps, bigCases = 4000, 120, 25
 	}
 	for c := 0; c < cases+bigCases; c++ {
 		cfg := aofh.GenCfg{N: 1 + rng.Intn(maxOps), EmptyKey: rng.Chance(50)}
